@@ -57,6 +57,13 @@ def add_columns(df, rng, where):
         "Logged": pd.date_range("1970-01-01", periods=n, freq="h"),
         "Wind": np.round(rng.uniform(0, 15, n), 2),
     }
+    # unrelated columns may well be incomplete: missing values on days inside the window
+    holes = rng.choice(n, size=min(n, 6), replace=False)
+    extras["Humidity"][holes[:3]] = np.nan
+    extras["Station"][holes[2:5]] = None
+    lg = extras["Logged"].to_series().reset_index(drop=True)
+    lg.iloc[holes[3:]] = pd.NaT
+    extras["Logged"] = lg.to_numpy()
     names = list(rng.choice(list(extras), size=int(rng.integers(1, 4)), replace=False))
     cols = list(df.columns)
     for k, name in enumerate(names):
@@ -73,6 +80,10 @@ def reindex(df, rng, kind):
         df.index = np.arange(n)[::-1]
     elif kind == "strings":
         df.index = ["r%05d" % i for i in range(n)]
+    elif kind == "unpadded":
+        df.index = ["%d-%d-%d" % (d.year, d.month, d.day) for d in df["Date"]]   # lexicographic != chronological
+    elif kind == "shuffled":
+        df.index = rng.permutation(n)
     elif kind == "datetime":
         df.index = pd.DatetimeIndex(df["Date"]) + pd.Timedelta(days=1234)
     elif kind == "nonunique":
@@ -123,12 +134,12 @@ def run_case(case):
         plans.append(("permutation", f"columns ordered {list(p)}", lambda df, p=p: df[list(p)]))
     for where in ("before", "between", "after"):
         plans.append(("extra_columns", f"unrelated columns {where}", lambda df, where=where: add_columns(df, rng, where)))
-    for kind in ("reversed", "strings", "datetime", "nonunique", "offset"):
+    for kind in ("reversed", "strings", "datetime", "nonunique", "offset", "unpadded", "shuffled"):
         plans.append(("index", f"index replaced ({kind})", lambda df, kind=kind: reindex(df, rng, kind)))
     plans.append(("extra_rows", "extra leading and trailing rows", lambda df: extra_rows(df, rng)))
     for _ in range(3):
         p = PERMS[int(rng.integers(0, len(PERMS)))]
-        kind = gen.pick(rng, ["reversed", "strings", "datetime", "offset"])
+        kind = gen.pick(rng, ["reversed", "strings", "datetime", "offset", "unpadded", "shuffled"])
         where = gen.pick(rng, ["before", "between", "after"])
         plans.append(("combination", f"extra rows + columns {where} + order {list(p)} + index {kind}",
                       lambda df, p=p, kind=kind, where=where:
